@@ -180,6 +180,61 @@ def enum_case(rep, drv, rng):
 					 py={'best': str(best_S), 'cost': best_cost}, model=mo, oracle=True, theorem=THEOREM)
 
 
+def enum_sim_case(rep, drv, rng):
+	"""Enumeration with the simulation-based objective (fixed seed): the reported cost is the objective at the returned vector and
+	no grid vector is better, grouped nodes included - re-evaluated on fresh copies of the network (Python-side)."""
+	from stockpyl.meio_general import meio_by_enumeration
+	from stockpyl.supply_chain_network import serial_system
+	from stockpyl.sim import run_multiple_trials
+	import copy
+	N = rng.randint(2, 3)
+	def mk():
+		with warnings.catch_warnings():
+			warnings.simplefilter('ignore')
+			return serial_system(N, local_holding_cost=[1 + i for i in range(N)], stockout_cost=[0] * (N - 1) + [10], demand_type='P', mean=4,
+								 shipment_lead_time=1, policy_type='BS', base_stock_level=0)
+	net = mk()
+	ids = list(net.node_indices)
+	groups = [set(rng.sample(ids, 2))] if rng.random() < .7 else None
+	grid = {n: sorted(rng.sample(range(2, 14), 2)) for n in ids}
+	seed = rng.randint(1, 999); trials, periods = 2, 25
+	case = {'N': N, 'groups': [sorted(g) for g in groups] if groups else None, 'grid': {str(k): v for k, v in grid.items()}, 'seed': seed}
+	rep.case('meio_by_enumeration(sim)', case, nontrivial=True)
+	rep.count('enum-sim' + (':grouped' if groups else ''))
+	def evaluate(S):
+		fresh = mk()
+		for n in fresh.nodes:
+			n.inventory_policy.base_stock_level = S[n.index]
+		with warnings.catch_warnings():
+			warnings.simplefilter('ignore')
+			return run_multiple_trials(fresh, trials, periods, rand_seed=seed, progress_bar=False)[0]
+	try:
+		with warnings.catch_warnings():
+			warnings.simplefilter('ignore')
+			best_S, best_cost = meio_by_enumeration(net, base_stock_levels=grid, groups=groups, sim_num_trials=trials, sim_num_periods=periods,
+													 sim_rand_seed=seed, progress_bar=False)
+	except Exception as e:
+		rep.diff('meio_by_enumeration(sim)', 'raised %s' % err_enum(e), case, oracle=True, theorem=THEOREM); return
+	bad = []
+	true_cost = evaluate(best_S)
+	if abs(true_cost - best_cost) > 1e-9 * max(1, abs(true_cost)):
+		bad.append('reported cost %r but the simulated objective at the returned vector %r is %r' % (best_cost, best_S, true_cost))
+	lead = {}
+	for n in ids:
+		lead[n] = min(g) if groups and any(n in g for g in groups) and (g := [h for h in groups if n in h][0]) else n
+	leaders = sorted(set(lead.values()))
+	import itertools
+	for combo in itertools.product(*[grid[l] for l in leaders]):
+		S = {n: combo[leaders.index(lead[n])] for n in ids}
+		c = evaluate(S)
+		if c < best_cost - 1e-9:
+			bad.append('grid vector %r has objective %r < reported best %r' % (S, c, best_cost)); break
+	if groups and len({best_S[n] for n in groups[0]}) != 1:
+		bad.append('grouped nodes do not share one level')
+	if bad:
+		rep.diff('meio_by_enumeration(sim)', '; '.join(bad[:2]), case, py={'best': str(best_S), 'cost': best_cost}, oracle=True, theorem=THEOREM)
+
+
 def cd_case(rep, drv, rng):
 	from stockpyl.meio_general import meio_by_coordinate_descent
 	from stockpyl import optimization
@@ -280,6 +335,8 @@ def run(rep, drv):
 		gss_case(rep, drv, rng)
 	for k in range(800 if th else 150):
 		enum_case(rep, drv, rng)
+	for k in range(100 if th else 12):
+		enum_sim_case(rep, drv, rng)
 	for k in range(300 if th else 60):
 		cd_case(rep, drv, rng)
 	for k in range(1500 if th else 300):
